@@ -37,7 +37,7 @@ ASSUMPTIONS = [
 ]
 
 HIST = gen.GenCfg(min_steps=3, max_steps=10, max_exchanges=2, max_holders=1, long_gaps=True, tie_prob=0.15, bulk_prob=0.08, fiat_only_out_fee=True)
-FLAVOURS = ("mixed", "mixed", "disposal_years", "transfer_heavy", "fully_sold")
+FLAVOURS = ("mixed", "mixed", "disposal_years", "transfer_heavy", "fully_sold", "sparse_years", "sparse_years")
 FIRST_ROW = 21  # 0-based index of spreadsheet row 22
 REL = Fraction(1, 10**12)
 
